@@ -98,6 +98,11 @@ void File::copy_from(FILE* from, FILE* to)
     fflush(to, "Error occurred writing to file");
 }
 
+void File::flush()
+{
+    fflush(m_file, "Error occurred writing to file");
+}
+
 void File::write_entire_contents_to(FILE* file)
 {
     // NOTE: rewind would also flush, but it throws away any error in doing so.
@@ -218,6 +223,8 @@ bool File::get_line(std::string& line, NewLine* newline)
 
 std::string File::read_all_as_string()
 {
+    // NOTE: rewind would also flush, but it throws away any error in doing so.
+    fflush(m_file, "Error occurred writing to file");
     std::rewind(m_file);
 
     std::string content;
